@@ -41,7 +41,7 @@ def strip(v):
 
 
 class CollInterp(A.Interp):
-    MUTATORS = {"HashMap::remove", "HashMap::insert", "HashMap::retain", "HashSet::insert", "HashSet::remove", "Vec::push", "Vec::extend", "Extend::extend",
+    MUTATORS = {"HashMap::remove", "HashMap::insert", "HashMap::retain", "HashSet::insert", "HashSet::remove", "Vec::push", "Vec::extend", "Extend::extend", "HashSet::extend", "HashMap::extend",
                 "Iterator::next", "HashMap::remove_entry", "HashMap::clear", "Vec::clear"}
 
     def __init__(self, fx, **kw):
@@ -129,10 +129,16 @@ class CollInterp(A.Interp):
             return ("cset", tuple(k for k in c[1] if not key_eq(k, a[1]))), A.lit(had)
         if s2 == "Vec::push" and c[0] == "cvec":
             return ("cvec", c[1] + (a[1],)), ("unit",)
-        if s2 in ("Vec::extend", "Extend::extend") and c[0] in ("cvec", "cset"):
+        if s2 in ("Vec::extend", "Extend::extend", "HashSet::extend") and c[0] in ("cvec", "cset"):
             src = a[1]
             if not is_coll(src):
                 raise A.Undecided("extend from %s" % A.vstr(src)[:60])
+            if c[0] == "cset":
+                out = list(c[1])
+                for x in items_of(src):
+                    if not any(key_eq(x, y) for y in out):
+                        out.append(x)
+                return ("cset", tuple(out)), ("unit",)
             return (c[0], c[1] + items_of(src)), ("unit",)
         raise A.Undecided("%s on %s is not modelled" % (s2, c[0]))
 
@@ -157,7 +163,7 @@ class CollInterp(A.Interp):
             self.trace.append(("lookup-key", A.vstr(strip(a[1]))))
             return A.some(hit[0]) if hit else A.NONE
         if s2 == "HashMap::contains_key" and c[0] == "cmap":
-            return A.lit(any(key_eq(k, a[1]) for k in c[1]))
+            return A.lit(any(key_eq(k, a[1]) for k, _ in c[1]))
         if s2 == "HashSet::contains" and c[0] == "cset":
             return A.lit(any(key_eq(k, a[1]) for k in c[1]))
         if s2 in ("HashMap::len", "HashSet::len", "Vec::len", "ExactSizeIterator::len"):
